@@ -1,4 +1,371 @@
 package main
 
-func runCheck(id, tier string) int { return 2 }
-func runReplay(id, path string) int { return 2 }
+// check / replay: spawn the shard processes, aggregate, write evidence, decide
+// the exit code (DESIGN §9): 0 held (KNOWN-FINDING lines allowed), 1 VIOLATION,
+// 2 infrastructure trouble (never dressed up as a violation or as a pass).
+
+import (
+	"encoding/json"
+	"fmt"
+	"os"
+	"os/exec"
+	"path/filepath"
+	"sort"
+	"strconv"
+	"strings"
+	"sync"
+	"time"
+)
+
+type shardSummary struct {
+	Property    string            `json:"property"`
+	Shard       int               `json:"shard"`
+	Episodes    int               `json:"episodes"`
+	NonTrivial  int               `json:"nontrivial"`
+	Fingers     []uint64          `json:"fingers"`
+	Steps       uint64            `json:"steps"`
+	SimTimeMs   int64             `json:"sim_time_ms"`
+	Switches    uint64            `json:"switches"`
+	LibSwitches uint64            `json:"lib_switches"`
+	Verdicts    map[string]int    `json:"verdicts"`
+	Faults      map[string]int    `json:"faults"`
+	Probes      map[string]int    `json:"probes"`
+	Foreign     map[string]int    `json:"foreign_clauses"`
+	Viols       []violOut         `json:"violations"`
+	KnownHits   map[string]int    `json:"known_hits"`
+	Samples     []json.RawMessage `json:"samples"`
+	Strategies  map[string]int    `json:"strategies"`
+	WallS       float64           `json:"wall_s"`
+	Infra       string            `json:"infra"`
+	Extra       map[string]int    `json:"extra"`
+	Rule        string            `json:"rule"`
+}
+
+type violOut struct {
+	Clause string `json:"clause"`
+	Msg    string `json:"msg"`
+	Seed   uint64 `json:"seed"`
+	Replay string `json:"replay"`
+	Known  string `json:"known"`
+}
+
+type knownFile struct {
+	Findings []struct {
+		ID       string   `json:"id"`
+		Status   string   `json:"status"`
+		Property string   `json:"property"`
+		Clauses  []string `json:"clauses"`
+		Witness  string   `json:"witness"`
+		Text     string   `json:"text"`
+		Commit   string   `json:"commit"`
+	} `json:"findings"`
+}
+
+var levelOf = map[string]string{"C11": "fault_enumeration"}
+
+func envInt(k string, d int) int {
+	if v := os.Getenv(k); v != "" {
+		if n, err := strconv.Atoi(v); err == nil {
+			return n
+		}
+	}
+	return d
+}
+
+func addMap(dst, src map[string]int) {
+	for k, v := range src {
+		dst[k] += v
+	}
+}
+
+func runCheck(id, tier string) int {
+	if tier != "quick" && tier != "thorough" {
+		die(2, "tier must be quick or thorough")
+	}
+	start := time.Now()
+	seed := uint64(20261002)
+	if v := os.Getenv("VERIF_SEED"); v != "" {
+		if n, err := strconv.ParseUint(v, 10, 64); err == nil {
+			seed = n
+		} else if n2, err := strconv.ParseInt(v, 10, 64); err == nil {
+			seed = uint64(n2)
+		}
+	}
+	race := id == "C19"
+	b, err := buildBinary(race)
+	if err != nil {
+		fmt.Printf("INFRA property=%s cannot build the simulation binary from /repo's working tree:\n%v\n", id, err)
+		return 2
+	}
+	nshards := envInt("VERIF_SHARDS", 16)
+	secs := 25
+	if tier == "thorough" {
+		secs = 900
+	}
+	if race {
+		secs = secs * 2
+	}
+	secs = envInt("VERIF_SECS", secs)
+	scratch, err := os.MkdirTemp(envOr("VERIF_SCRATCH", "/var/tmp"), "verif-run-")
+	if err != nil {
+		die(2, "%v", err)
+	}
+	defer os.RemoveAll(scratch)
+	replayDir := filepath.Join(verifDir, "replays")
+	os.MkdirAll(replayDir, 0o755)
+
+	type res struct {
+		shard int
+		sum   *shardSummary
+		err   error
+		out   string
+	}
+	results := make([]res, nshards)
+	var mu sync.Mutex
+	var cmds []*exec.Cmd
+	stop := false
+	var wg sync.WaitGroup
+	for i := 0; i < nshards; i++ {
+		out := filepath.Join(scratch, fmt.Sprintf("out%d.json", i))
+		args := []string{"-test.run", "^TestVerif$", "-test.timeout", "0",
+			"-verif.prop", id, "-verif.tier", tier, "-verif.seed", strconv.FormatUint(seed, 10),
+			"-verif.shard", strconv.Itoa(i), "-verif.nshards", strconv.Itoa(nshards),
+			"-verif.secs", strconv.Itoa(secs), "-verif.out", out, "-verif.sites", b.sites,
+			"-verif.replaydir", replayDir, "-verif.known", filepath.Join(verifDir, "known_findings.json"),
+			"-verif.progress", filepath.Join(scratch, fmt.Sprintf("progress%d", i))}
+		if race {
+			args = append(args, "-verif.racelog", filepath.Join(scratch, fmt.Sprintf("race%d", i)))
+		}
+		cmd := exec.Command(b.bin, args...)
+		cmd.Env = append(os.Environ(), "GOMAXPROCS=1", "GOTRACEBACK=single")
+		if race {
+			cmd.Env = append(cmd.Env, "GORACE=halt_on_error=0 log_path="+filepath.Join(scratch, fmt.Sprintf("race%d", i)))
+		}
+		cmd.Dir = scratch
+		mu.Lock()
+		cmds = append(cmds, cmd)
+		mu.Unlock()
+		wg.Add(1)
+		go func(i int, cmd *exec.Cmd, out string) {
+			defer wg.Done()
+			o, err := cmd.CombinedOutput()
+			r := res{shard: i, err: err, out: string(o)}
+			if bts, e := os.ReadFile(out); e == nil {
+				var s shardSummary
+				if json.Unmarshal(bts, &s) == nil {
+					r.sum = &s
+				}
+			}
+			mu.Lock()
+			results[i] = r
+			// first unknown violation: no need to keep the other shards running
+			if r.sum != nil && len(r.sum.Viols) > 0 && !stop {
+				stop = true
+				for _, c := range cmds {
+					if c != cmd && c.Process != nil {
+						c.Process.Signal(os.Interrupt)
+					}
+				}
+			}
+			mu.Unlock()
+		}(i, cmd, out)
+	}
+	// watchdog
+	done := make(chan struct{})
+	go func() { wg.Wait(); close(done) }()
+	watchdog := time.Duration(secs)*time.Second + 4*time.Minute
+	timedOut := false
+	select {
+	case <-done:
+	case <-time.After(watchdog):
+		timedOut = true
+		mu.Lock()
+		for _, c := range cmds {
+			if c.Process != nil {
+				c.Process.Kill()
+			}
+		}
+		mu.Unlock()
+		<-done
+	}
+
+	agg := &shardSummary{Verdicts: map[string]int{}, Faults: map[string]int{}, Probes: map[string]int{}, Foreign: map[string]int{}, KnownHits: map[string]int{}, Strategies: map[string]int{}, Extra: map[string]int{}}
+	fingers := map[uint64]bool{}
+	infra := ""
+	dead := 0
+	for _, r := range results {
+		if r.sum == nil {
+			if stop {
+				continue // interrupted after another shard found a violation
+			}
+			dead++
+			tail := r.out
+			if len(tail) > 1500 {
+				tail = tail[len(tail)-1500:]
+			}
+			infra = fmt.Sprintf("shard %d ended without a summary (err=%v); last seed in %s; output tail:\n%s", r.shard, r.err, filepath.Join(scratch, fmt.Sprintf("progress%d", r.shard)), tail)
+			continue
+		}
+		s := r.sum
+		agg.Episodes += s.Episodes
+		agg.NonTrivial += s.NonTrivial
+		agg.Steps += s.Steps
+		agg.SimTimeMs += s.SimTimeMs
+		agg.Switches += s.Switches
+		agg.LibSwitches += s.LibSwitches
+		addMap(agg.Verdicts, s.Verdicts)
+		addMap(agg.Faults, s.Faults)
+		addMap(agg.Probes, s.Probes)
+		addMap(agg.Foreign, s.Foreign)
+		addMap(agg.KnownHits, s.KnownHits)
+		addMap(agg.Strategies, s.Strategies)
+		addMap(agg.Extra, s.Extra)
+		for _, f := range s.Fingers {
+			fingers[f] = true
+		}
+		agg.Viols = append(agg.Viols, s.Viols...)
+		if len(agg.Samples) < 3 {
+			agg.Samples = append(agg.Samples, s.Samples...)
+		}
+		if s.Infra != "" {
+			infra = s.Infra
+		}
+		if s.Rule != "" {
+			rules[id] = s.Rule
+		}
+	}
+	wall := time.Since(start).Seconds()
+
+	// known findings of this property
+	var kf knownFile
+	if bts, err := os.ReadFile(filepath.Join(verifDir, "known_findings.json")); err == nil {
+		json.Unmarshal(bts, &kf)
+	}
+	for _, k := range kf.Findings {
+		if k.Property == id && k.Status == "finding" {
+			fmt.Printf("KNOWN-FINDING: property=%s %s [%s] (matched by %d episodes of this run)\n", id, k.Text, k.ID, agg.KnownHits[k.ID])
+		}
+	}
+
+	level := "exploration"
+	if l, ok := levelOf[id]; ok {
+		level = l
+	}
+	distinct := len(fingers)
+	samples := agg.Samples
+	if len(samples) == 0 {
+		samples = []json.RawMessage{json.RawMessage(`{"note":"no non-trivial episode was completed in this run"}`)}
+	}
+	perHour := 0.0
+	if wall > 0 {
+		perHour = float64(agg.Episodes) / wall * 3600
+	}
+	ev := map[string]any{
+		"property_id": id,
+		"tier":        tier,
+		"seed":        int64(seed & 0x7fffffffffffffff),
+		"level":       level,
+		"coverage": map[string]any{
+			"evaluations":         agg.Episodes,
+			"distinct_nontrivial": distinct,
+			"rule":                ruleOf(id),
+			"samples":             samples,
+			"nontrivial_episodes": agg.NonTrivial,
+			"scheduler_steps":     agg.Steps,
+			"context_switches":    agg.Switches,
+			"context_switches_involving_library_code": agg.LibSwitches,
+			"simulated_time_ms":   agg.SimTimeMs,
+			"episodes_per_hour":   int64(perHour),
+			"shards":              nshards,
+			"seconds_per_shard":   secs,
+			"verdicts":            agg.Verdicts,
+			"fault_kinds_fired":   agg.Faults,
+			"probes":              agg.Probes,
+			"strategies":          agg.Strategies,
+			"clauses_of_other_properties_seen": agg.Foreign,
+			"known_finding_hits":  agg.KnownHits,
+			"extra":               agg.Extra,
+			"real_code":           "varmq, internal/{helpers,linkedbuffer,linkedlist,pool,queues}, utils (instrumented copies of /repo's working tree), real sync/channel operations inside the wrappers",
+			"stubbed":             "goroutine scheduling, time (ticker/now/sleep), sync.Pool eviction policy, external adapters (simulated persistent/distributed queues), blocking decisions of primitives",
+			"race_detector":       race,
+		},
+		"assumptions": assumptions,
+		"wall_s":      wall,
+		"violations":  len(agg.Viols),
+	}
+	os.MkdirAll(filepath.Join(verifDir, "evidence"), 0o755)
+	evb, _ := json.MarshalIndent(ev, "", " ")
+	os.WriteFile(filepath.Join(verifDir, "evidence", id+".json"), evb, 0o644)
+
+	fmt.Printf("property=%s tier=%s seed=%d episodes=%d nontrivial=%d distinct=%d steps=%d wall=%.1fs verdicts=%v\n", id, tier, seed, agg.Episodes, agg.NonTrivial, distinct, agg.Steps, wall, agg.Verdicts)
+	zero := []string{}
+	for k, v := range agg.Probes {
+		if v == 0 {
+			zero = append(zero, k)
+		}
+	}
+	sort.Strings(zero)
+	if tier == "thorough" && len(zero) > 0 {
+		fmt.Printf("note: probes never hit in this run: %s\n", strings.Join(zero, ", "))
+	}
+	if len(agg.Viols) > 0 {
+		for _, v := range agg.Viols {
+			fmt.Printf("  clause=%s seed=%d: %s\n", v.Clause, v.Seed, v.Msg)
+			fmt.Printf("VIOLATION property=%s replay=%s\n", id, v.Replay)
+		}
+		return 1
+	}
+	if timedOut {
+		fmt.Printf("INFRA property=%s watchdog: shards did not finish within %v\n", id, watchdog)
+		return 2
+	}
+	if infra != "" {
+		fmt.Printf("INFRA property=%s %s\n", id, infra)
+		return 2
+	}
+	if agg.Episodes == 0 {
+		fmt.Printf("INFRA property=%s no episode was executed\n", id)
+		return 2
+	}
+	return 0
+}
+
+func runReplay(id, path string) int {
+	race := id == "C19"
+	b, err := buildBinary(race)
+	if err != nil {
+		fmt.Printf("INFRA cannot build: %v\n", err)
+		return 2
+	}
+	abs, _ := filepath.Abs(path)
+	cmd := exec.Command(b.bin, "-test.run", "^TestVerif$", "-test.timeout", "0", "-verif.prop", id, "-verif.mode", "replay", "-verif.replay", abs,
+		"-verif.sites", b.sites, "-verif.trace", "-verif.known", filepath.Join(verifDir, "known_findings.json"))
+	cmd.Env = append(os.Environ(), "GOMAXPROCS=1")
+	cmd.Stdout = os.Stdout
+	cmd.Stderr = os.Stderr
+	if err := cmd.Run(); err != nil {
+		if ee, ok := err.(*exec.ExitError); ok {
+			return ee.ExitCode()
+		}
+		return 2
+	}
+	return 0
+}
+
+var assumptions = []string{
+	"Go compiler, runtime and race detector are trusted; the go/ast rewriting preserves the semantics of the rewritten statements",
+	"yield granularity = statements, atomic calls and synchronisation operations; interleavings inside one call-free expression and weak-memory reorderings of plain accesses are not explored (data races are C19's subject)",
+	"sampling: a clean batch is evidence, not proof; the counts in this file say how much was explored",
+	"code outside the simulator is not judged: real adapters (redis/sqlite), real timers, GC-driven sync.Pool behaviour (modelled by seeded drops), performance",
+	"runtime.NumCPU() is read from the machine for 'concurrency < 1'",
+	"bounded-liveness verdicts assume the ageing scheduler (every runnable task runs within a bounded number of decisions)",
+}
+
+func ruleOf(id string) string {
+	if r, ok := rules[id]; ok {
+		return r
+	}
+	return "episodes = (seeded configuration, seeded client program, seeded schedule/fault stream); non-trivial = at least one context switch inside library code plus the property's own trigger; distinct = hash of the context-switch site sequence, the program and the configuration"
+}
+
+var rules = map[string]string{}
